@@ -440,7 +440,135 @@ def rule_params_forwarded_(ctx: Ctx, rep: Report) -> None:
     rule_params_forwarded(ctx, rep, "C15.params_forwarded", ('btclib.descriptors.miniscript',), 60)
 
 
+def rule_stack_order(ctx: Ctx, rep: Report) -> None:
+    """C15.stack_order: a miniscript's arguments are written left to right and
+    consume the stack from the top, so in a witness what satisfies a *later*
+    argument lies under -- is pushed before -- what satisfies an earlier one.
+    `_both(first, second)` concatenates in push order: wherever the satisfier
+    joins the stacks of two arguments of a fragment, the later argument's comes
+    first. Every such join on the unchanged tree agrees (an inferred rule, read
+    and confirmed); the other way round a witness is built that the script
+    reads with its halves swapped -- valid only when the two halves are equal."""
+    rule = "C15.stack_order"
+    n = 0
+    for q, fi in sorted(ctx.prog.functions.items()):
+        if not (q.startswith(MS + "._") and fi.name.endswith("_input")):
+            continue
+        a = fi.node.args
+        order = {p_.arg: i for i, p_ in enumerate(a.posonlyargs + a.args) if p_.annotation is not None and "_Inputs" in str(norm(p_.annotation))}
+        if len(order) < 2:
+            continue
+        for c in own_nodes(fi.node):
+            if not (isinstance(c, ast.Call) and call_name(c) == "_both" and len(c.args) == 2):
+                continue
+            roots = []
+            for x in c.args:
+                roots.append(x.value.id if isinstance(x, ast.Attribute) and isinstance(x.value, ast.Name) and x.value.id in order else None)
+            if None in roots or roots[0] == roots[1]:
+                continue
+            n += 1
+            ok = order[roots[0]] > order[roots[1]]
+            rep.ob(rule, f"{fi.name}:{norm(c)}", ok, fi.where(c), f"`{roots[0]}` (the later argument) is pushed first" if ok else
+                   f"`{norm(c)}` pushes the earlier argument `{roots[0]}` first: the script pops them the other way round, so the witness is read with its halves swapped")
+    rep.floor(rule, 15)
+
+
+def _alts(e: ast.AST, order: dict[str, int], join: str, pick: str) -> set[frozenset] | None:
+    """The alternatives of a bound / stack expression as sets of (argument position, sat|dsat);
+    non-canonical alternatives (`replace(..., non_canonical=True)`) are not alternatives."""
+    if isinstance(e, ast.Constant) and e.value is None:
+        return set()
+    if isinstance(e, ast.Call) and call_name(e) == "replace":
+        if any(k.arg == "non_canonical" and isinstance(k.value, ast.Constant) and k.value.value is True for k in e.keywords):
+            return set()
+        return _alts(e.args[0], order, join, pick)
+    if isinstance(e, ast.Call) and call_name(e) == pick and len(e.args) == 2:
+        a, b = _alts(e.args[0], order, join, pick), _alts(e.args[1], order, join, pick)
+        return None if a is None or b is None else a | b
+    if isinstance(e, ast.Call) and call_name(e) == join and len(e.args) == 2:
+        a, b = _alts(e.args[0], order, join, pick), _alts(e.args[1], order, join, pick)
+        if a is None or b is None or len(a) != 1 or len(b) != 1:
+            return None
+        return {next(iter(a)) | next(iter(b))}
+    if isinstance(e, ast.Attribute) and isinstance(e.value, ast.Name) and e.value.id in order and e.attr in ("sat", "dsat"):
+        return {frozenset({(order[e.value.id], e.attr)})}
+    if isinstance(e, ast.Constant) and isinstance(e.value, int):
+        return {frozenset()}
+    return None
+
+
+def rule_andor_tables_agree(ctx: Ctx, rep: Report) -> None:
+    """C15.andor_tables_agree: the predicted witness bound of andor(X,Y,Z) and the
+    witness the satisfier builds for it are two tables over the same cases: to
+    satisfy, X and Y, or else not-X and Z; to dissatisfy, not-X and not-Z. The
+    alternatives of each are read off `_binary_witness` (its last arm) and off
+    `_andor_input` as sets of (argument, sat|dsat), non-canonical alternatives
+    left out of both, and must be the same sets -- a bound summed over Y's
+    dissatisfaction where the satisfier uses Z's under-estimates the witness."""
+    rule = "C15.andor_tables_agree"
+    bw, ai = ctx.func(f"{MS}._binary_witness"), ctx.func(f"{MS}._andor_input")
+    # _andor_input(x, y, z, choose)
+    a = ai.node.args
+    order_i = {p_.arg: i for i, p_ in enumerate(a.posonlyargs + a.args) if p_.annotation is not None and "_Inputs" in str(norm(p_.annotation))}
+    pick_i = [p_.arg for p_ in a.posonlyargs + a.args if p_.arg not in order_i][-1]
+    ret = [r for r in own_nodes(ai.node) if isinstance(r, ast.Return) and isinstance(r.value, ast.Call) and call_name(r.value) == "_Inputs" and len(r.value.args) == 2]
+    # the last arm of _binary_witness: x, y from node.subs[:2], z = node.subs[2]
+    arm = None
+    for i in own_nodes(bw.node):
+        if isinstance(i, ast.If) and i.orelse and not isinstance(i.orelse[0], ast.If):
+            arm = i.orelse
+    if len(ret) != 1 or arm is None:
+        rep.unknown(rule, "shape", bw.where(), "the two tables were not found")
+        return
+    order_w: dict[str, int] = {}
+    for st in own_nodes(bw.node):
+        if isinstance(st, ast.Assign) and isinstance(st.targets[0], ast.Tuple) and "subs[:2]" in str(norm(st.value)).replace(" ", ""):
+            for k, t in enumerate(st.targets[0].elts):
+                order_w[t.id] = k
+    for st in arm:
+        if isinstance(st, ast.Assign) and isinstance(st.targets[0], ast.Name) and "subs[2]" in str(norm(st.value)).replace(" ", ""):
+            order_w[st.targets[0].id] = 2
+    bounds = [c for st in arm for c in ast.walk(st) if isinstance(c, ast.Call) and call_name(c) == "_Bounds" and len(c.args) == 2]
+    if len(bounds) != 1 or len(order_w) != 3:
+        rep.unknown(rule, "shape", bw.where(), f"andor arm: {len(bounds)} bounds over {order_w}")
+        return
+    for k, what in ((0, "satisfaction"), (1, "dissatisfaction")):
+        w = _alts(bounds[0].args[k], order_w, "_add", "_worst")
+        i_ = _alts(ret[0].value.args[k], order_i, "_both", pick_i)
+        if w is None or i_ is None:
+            rep.unknown(rule, f"andor:{what}", bw.where(bounds[0]), "an alternative could not be read")
+            continue
+        show = lambda ss: sorted(sorted(f"{'XYZ'[p_]}.{f}" for p_, f in alt) for alt in ss)  # noqa: E731
+        rep.ob(rule, f"andor:{what}", w == i_, bw.where(bounds[0]), f"both tables: {show(w)}" if w == i_ else
+               f"the bound is over {show(w)}, the satisfier builds {show(i_)}: the predicted witness size is not the size of the witness")
+    rep.floor(rule, 2)
+
+
+def rule_wrapper_siblings(ctx: Ctx, rep: Report) -> None:
+    """C15.wrapper_siblings: a W expression is `a:X` or `s:X`, and what may stand
+    behind either wrapper in a script is the same: one expression, with the
+    and_v() that may precede it (`t:` and `v:` chains end in one). The two arms
+    of the decoder's `_wrapped` expect the same things and differ in the
+    wrapper they name -- an `s:` arm expecting a single expression cannot read
+    back `s:and_v(...)`, which the writer writes and the type system admits."""
+    rule = "C15.wrapper_siblings"
+    fi = ctx.func(f"{MS}._Decoder._wrapped")
+    ex = [c for c in own_nodes(fi.node) if isinstance(c, ast.Call) and call_name(c) == "_expect" and c.args]
+    if len(ex) < 2:
+        rep.unknown(rule, "_wrapped", fi.where(), f"{len(ex)} expectations")
+        return
+    shapes = {tuple(str(norm(a)) for a in c.args[:-1]) for c in ex}
+    labels = [c.args[-1].value for c in ex if isinstance(c.args[-1], ast.Constant)]
+    rep.ob(rule, "_wrapped:same_expectation", len(shapes) == 1, fi.where(ex[-1]), f"both wrappers expect {sorted(shapes)[0]}" if len(shapes) == 1 else
+           f"the wrappers {labels} expect different things: {sorted(shapes)} -- one of them cannot read back what the other can")
+    rep.ob(rule, "_wrapped:labels", sorted(labels) == ["a:", "s:"], fi.where(), f"wrappers {labels}")
+    rep.floor(rule, 2)
+
+
 RULES = [
+    ("C15.wrapper_siblings", rule_wrapper_siblings),
+    ("C15.andor_tables_agree", rule_andor_tables_agree),
+    ("C15.stack_order", rule_stack_order),
     ("C15.params_forwarded", rule_params_forwarded_),
     ("C15.own_fields", rule_own_fields),
     ("C15.universe", rule_universe),
